@@ -163,7 +163,7 @@ class Calibrator(BaseSeedable):
         """Validate the 'samplers' and the 'scheduler' arguments provided to the constructor."""
         both_none = samplers is None and scheduler is None
         both_not_none = samplers is not None and scheduler is not None
-        if both_none and both_not_none:
+        if both_none or both_not_none:
             msg = "only one between 'samplers' and 'scheduler' must be provided"
             raise ValueError(
                 msg,
